@@ -113,25 +113,60 @@ Definition murmur64b (bs : list Z) (seed : Z) : option Z := murmur64b_mem bs (Z.
 Definition murmur_native_for (pointer_size : Z) (bs : list Z) (seed : Z) : option Z :=
   if pointer_size =? native_64b_pointer_size then murmur64b bs seed else Some (murmur64a bs seed).
 
-(* MurmurHashNative on a platform with 8-byte pointers (native_64b_pointer_size = 4 <> 8) *)
-Definition murmur_native (bs : list Z) (seed : Z) : Z := murmur64a bs seed.
+(* MurmurHashNative(key, len, seed) on this platform: the dispatch of MurmurHashNativeBackend on the pointer size
+   (platform assumption: 8-byte pointers), reading from memory that may extend beyond len *)
+Definition platform_pointer_size : Z := 8.
+Definition murmur_native_mem (mem : list Z) (len seed : Z) : Z :=
+  if platform_pointer_size =? native_64b_pointer_size
+  then match murmur64b_mem mem len seed with Some v => v | None => 0 end
+  else murmur64a_mem mem len seed.
+Definition murmur_native (bs : list Z) (seed : Z) : Z := murmur_native_mem bs (Z.of_nat (length bs)) seed.
 
-(* HashCallback: hash_ = MurmurHashNative(piece, hash_) for each piece in turn *)
+(* ---- interpretation of the key shapes that the translator extracts from each tool's source (Gen/Src_murmur.v):
+   KHash f d l s  =  f(env d .data(), env l .size(), value of s);  KPrev = the running value of a fold *)
+Fixpoint eval_key (env : krole -> list Z) (prev : Z) (e : kexpr) : Z :=
+  match e with
+  | KConst z => z
+  | KPrev => prev
+  | KHash f d l s =>
+    let sd := eval_key env prev s in
+    match f with
+    | F64A => murmur64a_mem (env d) (Z.of_nat (length (env l))) sd
+    | FNative => murmur_native_mem (env d) (Z.of_nat (length (env l))) sd
+    end
+  end.
+
+(* HashCallback: for each piece in turn, hash_ = <the step of fields.hh HashCallback::operator()> *)
 Definition hash_fold (seed : Z) (pieces : list (list Z)) : Z :=
-  fold_left (fun h p => murmur_native p h) pieces seed.
+  fold_left (fun h p => eval_key (fun _ => p) h hashcallback_step_shape) pieces seed.
+(* cache's own HashWithSeed *)
+Definition cache_fold (seed : Z) (pieces : list (list Z)) : Z :=
+  fold_left (fun h p => eval_key (fun _ => p) h cache_step_shape) pieces seed.
 
 (* ---- the keys the tools compute *)
-Definition shard_hash (pieces : list (list Z)) : Z := hash_fold shard_seed pieces.
+Definition callback_seed (ctor : option Z) : Z := match ctor with Some z => z | None => shard_seed end.
+Definition shard_hash (pieces : list (list Z)) : Z := hash_fold (callback_seed shard_callback_ctor_seed) pieces.
 Definition shard_index (pieces : list (list Z)) (nshards : Z) : Z := shard_hash pieces mod nshards.
-Definition dedupe_line_key (line : list Z) : Z := murmur_native line dedupe_line_seed.
-Definition dedupe_field_key (pieces : list (list Z)) : Z := hash_fold dedupe_field_seed pieces.
-Definition cache_key (pieces : list (list Z)) : Z := hash_fold cache_seed pieces.
-Definition subtract_insert_key (line : list Z) : Z := murmur_native line subtract_insert_seed.
-Definition subtract_lookup_key (line : list Z) : Z := murmur_native line subtract_lookup_seed.
-Definition commoncrawl_dedupe_key (line : list Z) : Z := murmur_native line commoncrawl_dedupe_seed.
-(* train_case Recorder::Add and apply_case: 64A(lowered target, 64A(source)) *)
-Definition case_key_train (lowered source : list Z) : Z := murmur64a lowered (murmur64a source default_seed_64a).
-Definition case_key_apply (lowered source : list Z) : Z := murmur64a lowered (murmur64a source default_seed_64a).
+Definition dedupe_line_key (line : list Z) : Z := eval_key (fun _ => line) 0 dedupe_line_key_shape.
+Definition dedupe_field_key (pieces : list (list Z)) : Z := hash_fold (callback_seed dedupe_callback_ctor_seed) pieces.
+Definition cache_key (pieces : list (list Z)) : Z := cache_fold cache_seed pieces.
+Definition subtract_insert_key (line : list Z) : Z := eval_key (fun _ => line) 0 subtract_insert_key_shape.
+Definition subtract_lookup_key (line : list Z) : Z := eval_key (fun _ => line) 0 subtract_lookup_key_shape.
+Definition commoncrawl_dedupe_key (line : list Z) : Z := eval_key (fun _ => line) 0 commoncrawl_dedupe_key_shape.
+(* train_case Recorder::Add(source, target) with lowered_ = ToLower(target); apply_case with lowered = ToLower(target word) *)
+Definition case_env (lowered source target : list Z) (r : krole) : list Z :=
+  match r with RLowered => lowered | RSource => source | RTarget => target | _ => [] end.
+Definition case_key_train (lowered source target : list Z) : Z := eval_key (case_env lowered source target) 0 train_case_key_shape.
+Definition case_key_apply (lowered source : list Z) : Z := eval_key (case_env lowered source []) 0 apply_case_key_shape.
+
+(* ---- independent specification of "the left fold of the hash with the previous value as seed":
+   the value after the pieces p1 .. pn is  H(pn, H(p(n-1), ... H(p1, seed))) -- written on the reversed list *)
+Fixpoint chain_rev (rev_pieces : list (list Z)) (seed : Z) : Z :=
+  match rev_pieces with
+  | [] => seed
+  | p :: earlier => murmur64a p (chain_rev earlier seed)
+  end.
+Definition fold_spec (seed : Z) (pieces : list (list Z)) : Z := chain_rev (rev pieces) seed.
 
 (* the first n cells (n counted in Z: buffer sizes are large) and the rest *)
 Fixpoint split_z (n : Z) (bs : list Z) : list Z * list Z :=
